@@ -154,6 +154,14 @@ def run(c, facts, tier):
     act_vals = {a: [v_ for _, v_ in rows] for a, rows in (r.get("action") or {}).items()}
     leaf_ok = bool(act_vals) and all(all(v_ is True for v_ in vs) for vs in act_vals.values())
     c.ob("C19.action", fa.key, "an action node yields true", leaf_ok, "value for an action node, per action: %s" % ({a: sorted(set(map(str, vs))) for a, vs in act_vals.items() if not all(v_ is True for v_ in vs)} or "true for all %d actions" % len(act_vals)))
+    if tier == "thorough":
+        # engine cross-check: where the function is written as one `match self`, the older purely syntactic reading of the
+        # recursion must agree with the evaluated one
+        for fnx in (fa, facts.fn("Expression::complex_frames")):
+            rs = treeq.check_exists_syntactic(facts, fnx)
+            re_ = treeq.check_exists(facts, fnx)
+            if rs["ok"] is not None:
+                c.ob("C19.action" if fnx is fa else "C19.frames", fnx.key, "syntactic and evaluated readings of the recursion agree", bool(rs["ok"]) == bool(re_["ok"]), "syntactic reading: %s (%s); evaluated: %s (%s)" % (rs["ok"], "; ".join(rs["problems"])[:120] or "complete", re_["ok"], "; ".join(re_["problems"])[:120] or "complete"), nontrivial=False)
     # C19.frames
     ff = facts.fn("Expression::complex_frames")
     r2 = treeq.check_exists(facts, ff)
